@@ -629,6 +629,13 @@ func (vc *VC) wellTypedAt(st *State, t types.Type, s []Term, depth int) Term {
 				}
 			}
 		}
+		if _, isBasic := u.Elem().Underlying().(*types.Basic); isBasic && intBits(u.Elem()) != 8 {
+			// type-based disjointness: a *B never points into an object that holds no B
+			// (bytes excepted: []byte views exist)
+			for _, id := range vc.p.notHolding(u.Elem()) {
+				c = append(c, tNot(tEq(sx("dtype", s[0]), tInt(int64(id)))))
+			}
+		}
 		return tOr(tAnd(tEq(s[0], "0"), tEq(s[1], "0")), tAnd(c...))
 	case *types.Slice:
 		return tAnd(tLe("0", s[2]), tLe(s[2], s[3]), tLe("0", s[1]),
